@@ -507,16 +507,50 @@ func (r *replayer) run(tp targetPkg, vecs []replayVector) (map[string]*nativeOut
 	if len(vecs) == 0 {
 		return res, nil
 	}
-	outs, _, err := r.runBatch(tp, vecs, 10*time.Minute)
-	if err == nil {
-		for i := range outs {
-			res[outs[i].ID] = &outs[i]
-		}
-		return res, nil
-	}
-	if r.bin[tp.name] == "" {
+	if err := r.build(tp); err != nil {
 		return nil, err
 	}
+	// the batch is split over parallel processes (harnesses may sleep natively)
+	nchunks := runtime.NumCPU()
+	if len(vecs) < 4*nchunks {
+		nchunks = 1
+	}
+	per := (len(vecs) + nchunks - 1) / nchunks
+	var cmu sync.Mutex
+	var cwg sync.WaitGroup
+	failed := false
+	for i := 0; i < len(vecs); i += per {
+		j := i + per
+		if j > len(vecs) {
+			j = len(vecs)
+		}
+		cwg.Add(1)
+		go func(chunk []replayVector) {
+			defer cwg.Done()
+			outs, _, err := r.runBatch(tp, chunk, 10*time.Minute)
+			cmu.Lock()
+			defer cmu.Unlock()
+			if err != nil {
+				failed = true
+				return
+			}
+			for i := range outs {
+				res[outs[i].ID] = &outs[i]
+			}
+		}(vecs[i:j])
+	}
+	cwg.Wait()
+	if !failed {
+		return res, nil
+	}
+	// some process died: run the vectors that have no outcome yet one by one
+	var rest []replayVector
+	for _, v := range vecs {
+		if res[v.ID] == nil {
+			rest = append(rest, v)
+		}
+	}
+	vecs = rest
 	// bisect: individually, in parallel
 	var mu sync.Mutex
 	sem := make(chan struct{}, runtime.NumCPU())
@@ -829,10 +863,15 @@ func runCheck(mode string, args []string) {
 		witLimit = 20000
 	}
 	nw := 0
+	nPanicWit := 0
+	ceClass := map[string]int{}
 	for _, r := range st.results {
 		entry := strings.SplitN(r.Detail, ":", 2)[0]
 		tp := entryPkg[entry]
-		if r.HasModel && (r.Outcome == "OK" || r.Outcome == "PANIC") && nw < witLimit && !strings.Contains(entry, "NoReplay") {
+		if r.Outcome == "PANIC" {
+			nPanicWit++
+		}
+		if r.HasModel && (r.Outcome == "OK" || (r.Outcome == "PANIC" && nPanicWit <= 40 && !r.Concurrent)) && nw < witLimit && !strings.Contains(entry, "NoReplay") {
 			rep := 1
 			if r.Orders {
 				rep = 6
@@ -841,6 +880,11 @@ func runCheck(mode string, args []string) {
 			nw++
 		}
 		for _, ce := range r.CEs {
+			ck := ce.Entry + "|" + ce.Kind + "|" + ce.ID + "|" + ce.Pos + "|" + strings.Join(ce.Known, ",")
+			ceClass[ck]++
+			if ceClass[ck] > 5 {
+				continue
+			}
 			ce.Mutation = strings.Join(muts, ";")
 			rep := 1
 			if ce.Orders {
@@ -870,7 +914,7 @@ func runCheck(mode string, args []string) {
 			// witnesses and counterexamples run in separate processes: a counterexample may kill its process
 			var wvecs, cvecs []replayVector
 			for _, p := range ps {
-				if p.ce == nil {
+				if p.ce == nil && p.res.Outcome == "OK" {
 					wvecs = append(wvecs, p.vec)
 				} else {
 					cvecs = append(cvecs, p.vec)
@@ -1149,6 +1193,9 @@ func nativeEventsFiltered(evs []nativeEvent) []nativeEvent {
 func compareWitness(r *PathResult, o *nativeOutcome) (bool, string) {
 	try := func(o *nativeOutcome) (bool, string) {
 		if o.Crash != "" {
+			if r.Outcome == "PANIC" || r.Outcome == "UNWIND" || r.Outcome == "DEADLOCK" {
+				return true, "" // the engine predicts that this run does not complete, and natively it does not
+			}
 			return false, "native process crashed: " + o.Crash
 		}
 		if len(o.Missing) > 0 {
